@@ -229,6 +229,50 @@ def run(ctx):
                 break
 
 
+def search(ctx, budget_s=90):
+    """Failing-input search on the real code, run when a proof obligation or the correspondence is broken:
+    graphs rich in multiple inheritance (4-8 nodes, class and instance layers), every subset of requested
+    layers, several input orders; only the property's clauses are evaluated."""
+    import time
+    from zope.testrunner import runner
+    rng = ctx.rng
+    t0 = time.time()
+    tried = 0
+    while time.time() - t0 < budget_s:
+        n = rng.randint(4, 8)
+        with_unit = rng.random() < 0.3
+        names = rng.sample(NAME_POOL, min(n, len(NAME_POOL)))
+        spec = []
+        for i in range(n):
+            if with_unit and i == 0:
+                spec.append(("unit", ("zope.testrunner.layer", "UnitTests"), []))
+                continue
+            earlier = list(range(1 if with_unit else 0, i))
+            k = rng.choice([1, 2, 2, 3, 3])
+            spec.append((rng.choice(["class", "instance", "instance"]), names[i], rng.sample(earlier, min(k, len(earlier)))))
+        spec = [(("instance" if k == "class" and any(spec[b][0] == "instance" for b in bs) else k), nm, bs)
+                for k, nm, bs in spec]
+        w = build_world(spec)
+        for sub in subsets(n, rng, 64):
+            first = None
+            for trial in range(2):
+                ls = list(sub)
+                if trial:
+                    rng.shuffle(ls)
+                order = w.idx(runner.order_by_bases([w.objs[i] for i in ls]))
+                tried += 1
+                bad = monitor(w, ls, order)
+                if bad is None and first is not None and first != order:
+                    bad = "order depends on input order: %r vs %r" % (first, order)
+                if bad:
+                    ctx.violation(bad + " (found by the failing-input search after %d inputs)" % tried,
+                                  {"spec": w.spec, "ls": ls, "real": {"order": order}}, signature="order-clause")
+                    ctx.extra["search_inputs"] = tried
+                    return
+                first = order
+    ctx.extra["search_inputs"] = tried
+
+
 def replay(ctx, obj):
     case = obj.get("case", {})
     if "spec" not in case:
